@@ -28,7 +28,7 @@ def specs(run):
     quick = run.tier == 'quick'
     S = [('numpy', (5, 70, 9), 2), ('numpy', (63, 10, 12), 0), ('numpy', (64, 64, 8), 1), ('numpy', (65, 66, 5), 3), ('numpy', (9, 62, 7), 1),
          ('numpy', (127, 66, 5), 0), ('numpy', (2, 2, 2), 4), ('numpy', (68, 5, 1030), 1), ('segy', (6, 61, 9), 0), ('irregular', (9, 7, 12), 0),
-         ('numpy', (128, 3, 5), 2), ('numpy', (61, 61, 4), 1)]
+         ('numpy', (128, 3, 5), 2), ('numpy', (61, 61, 4), 1), ('segy-dup', (6, 9, 8), 0)]
     if not quick:
         S += [('numpy', (129, 65, 5), 1), ('numpy', (70, 129, 4), 0), ('numpy', (4, 4, 2100), 2), ('irregular', (66, 5, 9), 0), ('segy', (65, 5, 20), 0),
               ('numpy', (60, 124, 6), 1), ('numpy', (125, 59, 3), 0), ('numpy', (64, 128, 4), 1)]
@@ -46,6 +46,13 @@ def make(d, k, spec, seed):
             th[f] = (t * (j + 3) - 11 * j).astype(np.int32)
         writers.numpy_to_sgz(p, cube, 2, (4, 4, -1), ilines=10 + 3 * np.arange(shape[0]), xlines=-5 + 2 * np.arange(shape[1]),
                              samples=4.0 * np.arange(shape[2]), trace_headers=th)
+    elif route == 'segy-dup':      # default detection with duplicated header words (several words share one stored array)
+        sgy = p + '.sgy'
+        t = np.arange(shape[0] * shape[1]).reshape(shape[0], shape[1])
+        inputs.write_segy(sgy, cube, 10 + 3 * np.arange(shape[0]), -5 + 2 * np.arange(shape[1]), 4.0 * np.arange(shape[2]),
+                          headers={segyio.TraceField.TRACE_SEQUENCE_LINE: t + 1, segyio.TraceField.CDP: 5 * t + 2, segyio.TraceField.CDP_TRACE: 5 * t + 2,
+                                   segyio.TraceField.ShotPoint: 1000 - t})
+        writers.segy_to_sgz(sgy, p, 2, None, header_detection='heuristic')
     elif route == 'segy':
         sgy = p + '.sgy'
         inputs.write_segy(sgy, cube, 10 + 3 * np.arange(shape[0]), -5 + 2 * np.arange(shape[1]), 4.0 * np.arange(shape[2]))
@@ -98,6 +105,20 @@ def _worker(item):
         with env.quiet():
             with SgzConverter(src) as c:
                 c.convert_to_adv_sgz(adv)
+        # the same request on a converter that has already served header reads (out of table order) must write the same file
+        adv2 = os.path.join(d, f'a{k}h.sgz')
+        with env.quiet():
+            with SgzConverter(src) as c:
+                keys_ = list(c.stored_header_keys)
+                if keys_:
+                    c.get_tracefield_values(keys_[-1])
+                    c.gen_trace_header(0)
+                    c.get_tracefield_values(keys_[len(keys_) // 2])
+                c.get_trace(0)
+                c.convert_to_adv_sgz(adv2)
+        with open(adv, 'rb') as f1, open(adv2, 'rb') as f2:
+            out['history_independent'] = f1.read() == f2.read()
+        os.remove(adv2)
         A, B = snapshot(src), snapshot(adv)
         out['same'] = {key: (A[key] == B[key]) if key != 'vol' else (A['vol'].shape == B['vol'].shape and codec.same_bits(A['vol'], B['vol']))
                        for key in ('vol', 'il', 'xl', 'z', 'ntr', 'structured', 'stored', 'text', 'bin', 'hash', 'hdr', 'tf')}
@@ -156,6 +177,7 @@ def judge(run, spec, r, ev, conf):
         run.check(r['same'][key], f'C12.{name}', case, key, 'unchanged')
     for key, ok in r['paths'].items():
         run.check(ok, f'C12.read-path[{key}]', case, None, 'bitwise as on the source')
+    run.check(r.get('history_independent', True), 'C12.history-independent', case, None, 'the file a fresh converter writes')
     if conf is not None:
         run.check(not conf, 'C12.conformant', case, conf, [])
     if ev is not None and ev['supported']:
